@@ -267,6 +267,19 @@ theorem applySchemaDefs_ne_panic (st : LState) (l : List SchemaDef) (r : Roots) 
     · exact ih _ _
     · exact applySchemaDef_ne_panic _ _ _ _
 
+theorem checkRootKind_ne_panic (st : LState) (op : Bytes) (root : Option Name) : checkRootKind st op root ≠ .panic := by
+  unfold checkRootKind
+  split
+  · simp
+  · split
+    · simp
+    · split <;> simp
+
+theorem checkRootKinds_ne_panic (st : LState) (r : Roots) : checkRootKinds st r ≠ .panic := by
+  unfold checkRootKinds
+  exact andThen_ne_panic (checkRootKind_ne_panic _ _ _)
+    (fun _ => andThen_ne_panic (checkRootKind_ne_panic _ _ _) (fun _ => checkRootKind_ne_panic _ _ _))
+
 /-- with no nil entry in `PossibleTypes`, everything after `buildState` is panic-free -/
 theorem finish_ne_panic {sd : SchemaDoc} {st : LState} (h : NoNilPossible st) : (finish sd st).isPanic = false := by
   unfold finish
@@ -284,7 +297,10 @@ theorem finish_ne_panic {sd : SchemaDoc} {st : LState} (h : NoNilPossible st) : 
         · split
           · rfl
           · rename_i hp; exact absurd hp (validateDirectiveDefinitions_ne_panic st)
-          · rfl
+          · split
+            · rfl
+            · rename_i hp; exact absurd hp (checkRootKinds_ne_panic _ _)
+            · rfl
 
 theorem load_ne_panic_of_state {sd : SchemaDoc} (h : ∀ st, buildState sd = .ok st → NoNilPossible st) :
     (load sd).isPanic = false := by
